@@ -157,6 +157,11 @@ def step (_ : Unit) (toks : List Val) (_impl : String) : Unit × Out :=
       ((), { model := toString (Model.Math.coal (0 : Int) is), spec := some (toString (Spec.Math.coal is)),
              tags := [if is.all (· == 0) then "coal.allzero" else if is.head? == some 0 then "coal.skips" else "coal.first"] })
     | none => ((), bad)
+  | [.w "coalm", l] =>   -- Coal over struct types that carry an IsZero method: still the first argument different from the Go zero value
+    match l.ints? with
+    | some is =>
+      ((), { model := toString (Model.Math.coal (0 : Int) is), spec := some (toString (Spec.Math.coal is)), tags := ["coalm"] })
+    | none => ((), bad)
   | [.w "iszero", .i v] =>
     -- Go `int` has no IsZero method: the type assertion fails
     ((), { model := (ofBool (Model.Math.isZero (0 : Int) none v)).render, spec := some (ofBool (v == 0)).render,
